@@ -1459,49 +1459,24 @@ impl<'a, R: FileManager> FrontendCtx<'a, R> {
         keys: Runtype,
         anchor: &Anchor,
     ) -> Res<Runtype> {
-        match keys.extract_single_string_const() {
-            Some(str) => Ok(Self::convert_pick_keys(obj, vec![str])),
-            None => match keys.kind {
-                RuntypeKind::AnyOf(rms) => {
-                    let mut keys = vec![];
-                    for rm in rms {
-                        match rm.extract_single_string_const() {
-                            Some(str) => {
-                                keys.push(str);
-                            }
-                            None => match rm.kind {
-                                RuntypeKind::Ref(n) => {
-                                    let map = self
-                                        .partial_validators
-                                        .get(&n)
-                                        .and_then(|it| it.as_ref())
-                                        .cloned();
-                                    let k = map.and_then(|it| it.extract_single_string_const());
-                                    match k {
-                                        Some(str) => keys.push(str),
-                                        _ => {
-                                            return self.error(
-                                                anchor,
-                                                DiagnosticInfoMessage::PickNeedsString,
-                                            );
-                                        }
-                                    }
-                                }
-                                _ => {
-                                    return self
-                                        .error(anchor, DiagnosticInfoMessage::PickNeedsString);
-                                }
-                            },
-                        }
-                    }
-                    Ok(Self::convert_pick_keys(obj, keys))
-                }
-                _ => self.error(
+        // like Omit: the keys may be a literal, a union of literals, or aliases of those
+        let keys = match self.extract_union(keys) {
+            Ok(keys) => keys,
+            Err(_) => {
+                return self.error(
                     anchor,
                     DiagnosticInfoMessage::PickShouldHaveStringOrStringArrayAsTypeArgument,
-                ),
-            },
-        }
+                );
+            }
+        };
+        let str_keys = keys
+            .iter()
+            .map(|it| match it.extract_single_string_const() {
+                Some(str) => Ok(str),
+                None => self.error(anchor, DiagnosticInfoMessage::PickNeedsString),
+            })
+            .collect::<Res<Vec<_>>>()?;
+        Ok(Self::convert_pick_keys(obj, str_keys))
     }
     fn convert_omit_keys(
         obj: &BTreeMap<String, Optionality<Runtype>>,
